@@ -110,6 +110,9 @@ def check(ctx):
                   'a row is passed on (and counted) on a path on which it was not written to the file, or the other way round: '
                   'count_of_rows no longer is the number of rows in the data file', path=p_.describe())
     run.floor('WRC', n9, 1, 'paths of the writer loop')
+    # ... and a row that is written is one record of the file (JSON object / GeoJSON feature; CSV: one writerow, R16o in C03)
+    from rules import observers as _obs9
+    _obs9.json_object_is_row(ctx)
     db = commits.dumper_base(ctx)
     fd = commits.file_dumper(ctx)
 
